@@ -1190,6 +1190,48 @@ func runAdmit(seed uint64) (violation string, checked, randomUsed int64) {
 	return "", checked, randomUsed
 }
 
+// runPolicyAdd is the policy-level half of C18: insertions are applied to a real eviction policy the
+// way maintenance applies them; the sketch is enabled lazily by one of them. Whenever tracking is
+// enabled after an insertion, the key that insertion recorded must have an estimate of at least 1,
+// and of at least the number of times it was inserted since tracking began (capped at 15), as long as
+// no sampling period ended in between (period = 10 x maximum recordings, so short runs stay inside one).
+func runPolicyAdd(seed uint64) (violation string, adds int64) {
+	r := core.NewRng(seed)
+	maximum := uint64(2 + r.Intn(300))
+	p := otter.VerifNewPolicyWithMaximum(maximum)
+	counts := map[int]int{}
+	recorded := 0
+	n := int(maximum) + r.Intn(int(4*maximum)+1)
+	for i := 0; i < n; i++ {
+		key := i
+		if r.Chance(1, 5) && i > 0 {
+			key = r.Intn(i) // an evicted or resident key comes back
+		}
+		wasEnabled := p.SketchEnabled()
+		p.Add(key)
+		adds++
+		if !p.SketchEnabled() {
+			continue
+		}
+		if !wasEnabled {
+			counts = map[int]int{} // tracking starts with this insertion
+			recorded = 0
+		}
+		counts[key]++
+		recorded++
+		if uint64(recorded) >= 10*maximum-1 {
+			counts = map[int]int{} // the sampling period may have ended
+			recorded = 0
+			continue
+		}
+		if f := p.Frequency(key); f < uint64(min(counts[key], 15)) {
+			return fmt.Sprintf("policy with maximum %d: key %d was recorded by %d insertion(s) since tracking was enabled but its estimate is %d (insertion %d; tracking was enabled before it: %v)",
+				maximum, key, counts[key], f, i, wasEnabled), adds
+		}
+	}
+	return "", adds
+}
+
 func RunC18(col *core.Collector, tier, variant string, seed uint64, shard, nshards int, replayDir, outBase string) {
 	col.Note("rule: a case = one sketch instance (fresh hash seed) with a capacity from 1 to 100000 incl. non powers of two, a generated recording order with a hot key, growing ensureCapacity calls and aging steps, compared with exact per-period reference counts; plus admission cases with injected random words; non-trivial = at least 200 recordings and one aging step (explicit or end of period); distinct = case seed")
 	n := 12000
@@ -1212,6 +1254,13 @@ func RunC18(col *core.Collector, tier, variant string, seed uint64, shard, nshar
 		if v != "" {
 			path := writeReplay(replayDir, fmt.Sprintf("C18-sketch-%x.json", cs), map[string]any{"engine": "sketch", "case_seed": cs, "violation": v})
 			col.Violation(core.Violation{Property: "C18", Signature: "sketch:" + sigText(v), Detail: v + fmt.Sprintf(" (case seed %d)", cs), Replay: path})
+		}
+		if pv, adds := runPolicyAdd(cs ^ 0x3333); true {
+			col.Count("policy.insertions_applied", adds)
+			if pv != "" {
+				path := writeReplay(replayDir, fmt.Sprintf("C18-policy-%x.json", cs), map[string]any{"engine": "policy-add", "case_seed": cs ^ 0x3333, "violation": pv})
+				col.Violation(core.Violation{Property: "C18", Signature: "policy-add:" + sigText(pv), Detail: pv, Replay: path})
+			}
 		}
 		av, checked, used := runAdmit(cs ^ 0x5555)
 		col.Count("admit.checked", checked)
